@@ -20,12 +20,28 @@ import (
 )
 
 const (
-	RepoDir    = "/repo"
-	HarnessDir = "/verif/harness"
 	VerifDir   = "/verif"
 	RepoPrefix = "github.com/huderlem/poryscript"
 	HzPkg      = "verif/harness/hz"
 )
+
+// The registered commands always check /repo's working tree. For trying a
+// seeded change without touching /repo (tools/scratch_check.sh), VERIF_SCRATCH
+// names a directory holding a worktree of the repository (repo/), a copy of the
+// harness module whose replace directive points at it (harness/) and an output
+// directory (out/) that receives the evidence and replay files instead of
+// /verif.
+var (
+	RepoDir    = "/repo"
+	HarnessDir = "/verif/harness"
+	OutDir     = VerifDir
+)
+
+func init() {
+	if s := os.Getenv("VERIF_SCRATCH"); s != "" {
+		RepoDir, HarnessDir, OutDir = filepath.Join(s, "repo"), filepath.Join(s, "harness"), filepath.Join(s, "out")
+	}
+}
 
 // Env is shared by all workers of one check run.
 type Env struct {
@@ -946,11 +962,11 @@ func (r *Report) Finish(env *Env) int {
 		}
 		return 3
 	}
-	os.MkdirAll(filepath.Join(VerifDir, "replays"), 0o755)
-	os.MkdirAll(filepath.Join(VerifDir, "evidence"), 0o755)
+	os.MkdirAll(filepath.Join(OutDir, "replays"), 0o755)
+	os.MkdirAll(filepath.Join(OutDir, "evidence"), 0o755)
 	exit := 0
 	for i, f := range r.Violations {
-		path := filepath.Join(VerifDir, "replays", fmt.Sprintf("%s-%s-%d.json", r.Property, r.Tier, i))
+		path := filepath.Join(OutDir, "replays", fmt.Sprintf("%s-%s-%d.json", r.Property, r.Tier, i))
 		b, _ := json.MarshalIndent(f, "", " ")
 		os.WriteFile(path, b, 0o644)
 		if i < 20 {
@@ -1037,7 +1053,7 @@ func (r *Report) Finish(env *Env) int {
 		},
 	}
 	b, _ := json.MarshalIndent(ev, "", " ")
-	os.WriteFile(filepath.Join(VerifDir, "evidence", r.Property+".json"), b, 0o644)
+	os.WriteFile(filepath.Join(OutDir, "evidence", r.Property+".json"), b, 0o644)
 	fmt.Printf("%s %s: skeletons=%d paths=%d (inconclusive %d, beyond-bound %d) queries=%d solver=%.1fs cross-checked=%d violations=%d known=%d wall=%.1fs\n",
 		r.Property, r.Tier, r.Cases, r.Paths.Paths, r.Paths.Inconclusive, r.Paths.BeyondBound, r.solverQ, r.solverTime.Seconds(), r.CrossOK, len(r.Violations), len(r.KnownHit), wall)
 	return exit
